@@ -157,10 +157,27 @@ def run_py(spec, override=None, log=None):
     seen = []
     evs = [make_event(e, n, seen) for e in spec["events"]]
     jac = None
+    # the same Jacobian values in four memory layouts (C order, Fortran order, transposed view, strided view):
+    # the binding must read entries by index, not by position in the buffer
+    layout = (spec["id"] // 2) % 4
+    def relayout(j):
+        j = np.asarray(j, dtype=float)
+        if layout == 1:
+            return np.asfortranarray(j)
+        if layout == 2:
+            return np.ascontiguousarray(j.T).T
+        if layout == 3:
+            big = np.full((2 * j.shape[0], 2 * j.shape[1]), 7.5)
+            big[::2, ::2] = j
+            return big[::2, ::2]
+        return j
     if spec["jac"] == "callable":
-        jac = make_jac(pr["name"], n)
+        jraw = make_jac(pr["name"], n)
+        jac = lambda t, y, *p: relayout(jraw(t, y, *p))
+        count("jacobian_layout_%s" % ["c_order", "fortran_order", "transposed_view", "strided_view"][layout])
     elif spec["jac"] == "constant":
-        jac = make_jac(pr["name"], n)(0.0, [0.0] * n, *params)
+        jac = relayout(make_jac(pr["name"], n)(0.0, [0.0] * n, *params))
+        count("jacobian_layout_%s" % ["c_order", "fortran_order", "transposed_view", "strided_view"][layout])
     if not use_args:
         # closures instead of args
         f0, j0, e0 = f, jac, evs
@@ -497,7 +514,7 @@ if A.only is None:
         "property_id": "C20", "tier": A.tier, "seed": A.seed, "level": "exploration",
         "coverage": {
             "evaluations": max(evaluations, 1), "distinct_nontrivial": len(nontrivial),
-            "rule": "shared case table generated by the Rust harness (6 problems with + - * / right-hand sides x 6 methods x scalar/vector tolerances x t_eval x dense_output x 0..3 event functions (terminal or not, three directions) x first_step/max_step/max_steps x Jacobian none/callable/constant x args or closures x forward/backward); every case is run through ivp.solve_ivp of the freshly built extension and compared bit for bit with the Rust Solution (t, y layout (n,m), events, status/success mapping, nfev/njev/nlu, sol(t) shapes and values); implicit cases without a user Jacobian are re-run with jac_sparsity (true structure, random supersets, every pattern containing the diagonal for n<=3/4; minimal tocsc object and scipy csc/csr/coo) and the perturbation groups decoded from the Python right-hand-side log; non-trivial = case with events or dense output, or a sparsity run in which at least one Jacobian evaluation was decoded",
+            "rule": "shared case table generated by the Rust harness (6 problems with + - * / right-hand sides x 6 methods x scalar/vector tolerances x t_eval x dense_output x 0..3 event functions (terminal or not, three directions) x first_step/max_step/max_steps x Jacobian none/callable/constant (values handed over in C order, Fortran order, as a transposed view and as a strided view) x args or closures x forward/backward); every case is run through ivp.solve_ivp of the freshly built extension and compared bit for bit with the Rust Solution (t, y layout (n,m), events, status/success mapping, nfev/njev/nlu, sol(t) shapes and values); implicit cases without a user Jacobian are re-run with jac_sparsity (true structure, random supersets, every pattern containing the diagonal for n<=3/4; minimal tocsc object and scipy csc/csr/coo) and the perturbation groups decoded from the Python right-hand-side log; non-trivial = case with events or dense output, or a sparsity run in which at least one Jacobian evaluation was decoded",
             "samples": samples if samples else [{"note": "no sample recorded"}],
             "observed": counters, "inconclusive": inconclusive, "known_findings_matched": known_matched,
             "violations_by_signature": {k: v[0] for k, v in viol.items()}, "coverage_floors_failed": floor_fail,
